@@ -17,11 +17,14 @@ export CARGO_NET_OFFLINE=true
 ( $DEMO > $OUT/demo_without.log 2>&1 ); RC_WITHOUT=$?
 # --- with the change
 git apply $OUT/patch.diff
-( cargo test --workspace --offline --no-fail-fast > $OUT/suite_with.log 2>&1 ); 
-# the demo test itself is part of --workspace: count failures outside seed_demo
-SUITE_FAIL=$(grep -E "^test .* FAILED$" $OUT/suite_with.log | grep -v "seed_demo\|^test demo\|seed" | wc -l)
+# the existing suite, without the demo test file
+rm -f $WT/tests/seed_demo.rs $WT/tests/seed_demo2.rs $WT/tests/seed2_demo.rs
+( cargo test --workspace --offline --no-fail-fast > $OUT/suite_with.log 2>&1 ); SUITE_RC=$?
+SUITE_FAIL=$(grep -E "^test .* FAILED$" $OUT/suite_with.log | wc -l)
+SUITE_PASS=$(grep -E "^test result" $OUT/suite_with.log | awk '{s+=$4} END {print s}')
+[ -f $WT/$SD/demo_test.rs ] && cp $WT/$SD/demo_test.rs $WT/tests/seed_demo.rs
 ( $DEMO > $OUT/demo_with.log 2>&1 ); RC_WITH=$?
 git checkout -q -- src
 rm -f $WT/merged.skf $WT/no_const_sites.skf
-echo "seed=$ID property=$PROP demo_without_rc=$RC_WITHOUT demo_with_rc=$RC_WITH existing_suite_failures_with_change=$SUITE_FAIL"
-echo "{\"demo_without_rc\": $RC_WITHOUT, \"demo_with_rc\": $RC_WITH, \"existing_suite_failures_with_change\": $SUITE_FAIL}" > $OUT/confirm.json
+echo "seed=$ID property=$PROP demo_without_rc=$RC_WITHOUT demo_with_rc=$RC_WITH existing_suite_with_change: rc=$SUITE_RC passed=$SUITE_PASS failed=$SUITE_FAIL"
+echo "{\"demo_without_rc\": $RC_WITHOUT, \"demo_with_rc\": $RC_WITH, \"existing_suite_rc_with_change\": $SUITE_RC, \"existing_suite_passed\": $SUITE_PASS, \"existing_suite_failed\": $SUITE_FAIL}" > $OUT/confirm.json
